@@ -320,6 +320,16 @@ pub async fn send_body(ctx: Ctx, idx: u32, body_id: u32, mut stream: SendStream<
             }
         }
     }
+    // A reset *after* the message was finished (abort index == number of chunks): legal API use; if the tail of
+    // the message is still queued (flow control, back-pressure) the reset has to go out and discard it (C17).
+    if let Some((after, AbortKind::Reset(code))) = plan.abort {
+        if after == n_chunks && !failed {
+            yield_n(plan.pace as u32).await;
+            let id = call(&ctx, Op::SendReset, idx, sid, code as u64, 2, false, None);
+            stream.send_reset(Reason::from(code));
+            ret(&ctx, Op::SendReset, id, idx, sid, code as u64, 2, false, Res::Ok, None);
+        }
+    }
     // wait until the peer resets or everything is flushed? No: dropping the
     // handle after END_STREAM is the documented way to finish.
     let id = call(&ctx, Op::DropSend, idx, sid, 0, 0, false, None);
